@@ -1,42 +1,114 @@
+// Command verif decides the properties C01–C20 of /repo by static analysis.
+//
+//	verif check <Cxx> [--tier quick|thorough] [--no-evidence]
+//	verif list
 package main
 
 import (
 	"fmt"
 	"os"
+	"path/filepath"
+	"sort"
+	"strconv"
+	"time"
 
-	"verif/checker/effects"
-	"verif/checker/load"
+	"verif/checker/props"
 	"verif/checker/report"
 )
 
+func usage() {
+	fmt.Fprintln(os.Stderr, "usage: verif check <Cxx> [--tier quick|thorough] [--no-evidence] | verif list")
+	os.Exit(2)
+}
+
 func main() {
-	cfg := "amd64"
-	if len(os.Args) > 1 {
-		cfg = os.Args[1]
+	if len(os.Args) < 2 {
+		usage()
 	}
-	p, err := load.Load(cfg)
-	if err != nil {
-		fmt.Println("ERR", err)
-		os.Exit(2)
+	switch os.Args[1] {
+	case "list":
+		var ids []string
+		for id := range props.Registry {
+			ids = append(ids, id)
+		}
+		sort.Strings(ids)
+		for _, id := range ids {
+			fmt.Println(id, props.Registry[id].Level, "-", props.Registry[id].Technique)
+		}
+	case "check":
+		if len(os.Args) < 3 {
+			usage()
+		}
+		os.Exit(check(os.Args[2], os.Args[3:]))
+	default:
+		if code, ok := extraCommand(os.Args[1], os.Args[2:]); ok {
+			os.Exit(code)
+		}
+		usage()
 	}
-	a := effects.Run(p)
-	for _, pr := range append(p.Problems, a.Problems...) {
-		fmt.Println("PROBLEM", pr)
-	}
-	var all []report.Obligation
-	all = append(all, a.RInitReceivers(nil)...)
-	all = append(all, a.RInitLocals(nil)...)
-	all = append(all, a.RAlias()...)
-	all = append(all, a.RReadOnly()...)
-	all = append(all, a.RFresh()...)
-	all = append(all, a.RGlobal()...)
-	all = append(all, a.RAtomic()...)
-	cnt := map[string]int{}
-	for _, o := range all {
-		cnt[o.Rule]++
-		if !o.OK || len(os.Args) > 2 {
-			fmt.Printf("%v %s @%s: %s\n", o.OK, o.Key, o.Pos, o.Detail)
+}
+
+func check(id string, args []string) (code int) {
+	tier := os.Getenv("VERIF_TIER")
+	noEv := false
+	for i := 0; i < len(args); i++ {
+		switch args[i] {
+		case "--tier":
+			if i+1 < len(args) {
+				tier = args[i+1]
+				i++
+			}
+		case "--no-evidence":
+			noEv = true
+		case "--replay":
+			i++ // replay re-runs the whole (deterministic) check and prints the derivation
 		}
 	}
-	fmt.Println(cnt, a.Stats())
+	if tier != "thorough" {
+		tier = "quick"
+	}
+	start := time.Now()
+	p := props.Registry[id]
+	if p == nil {
+		fmt.Printf("unknown or unclaimed property %s\n", id)
+		return 2
+	}
+	var seed int64
+	if s := os.Getenv("VERIF_SEED"); s != "" {
+		seed, _ = strconv.ParseInt(s, 10, 64)
+	}
+	c := props.NewCtx(tier)
+	defer func() {
+		if r := recover(); r != nil {
+			// a panic in the checker fails the check (fail closed)
+			c.Set.Problem("PANIC in checker: %v", r)
+			out := report.Decide(id, c.Set, p.Exceptions, nil, p.Floors)
+			out.Tier, out.Level, out.Start, out.Seed = tier, p.Level, start, seed
+			out.Explanation = p.Explanation
+			code = out.Emit(noEv)
+			if code == 0 {
+				code = 1
+			}
+		}
+	}()
+	p.Build(c)
+	known, err := report.LoadKnown(filepath.Join(report.VerifDir(), "known_findings.json"))
+	if err != nil {
+		c.Set.Problem("known_findings.json: %v", err)
+	}
+	out := report.Decide(id, c.Set, p.Exceptions, known, p.Floors)
+	out.Tier, out.Level, out.Start, out.Seed = tier, p.Level, start, seed
+	out.Explanation = p.Explanation
+	out.Assumptions = p.Assumptions
+	out.TrustedBase = p.TrustedBase
+	out.Programs = p.Programs
+	out.Extra["configurations"] = c.Inventory()
+	out.Extra["technique"] = p.Technique
+	if c.Samples != nil {
+		out.Samples = c.Samples
+	}
+	for k, v := range c.Extra {
+		out.Extra[k] = v
+	}
+	return out.Emit(noEv)
 }
